@@ -23,10 +23,13 @@ TARGETS = {
         ("range", "1..=7", "1..7"), ("range_to", "..8", "..7"), ("range_to_incl", "..=7", "..=6"), ("range_from", "7..", "8.."),
         ("wild", "_", None),
         # the operand is a REFERENCE held by the caller (a loop variable, a function parameter): one reference level more than the value
-        ("gt_refvar", "> rv6", "> rv7"), ("eq_refvar", "== rv7", "== rv6")]),
+        ("gt_refvar", "> rv6", "> rv7"), ("eq_refvar", "== rv7", "== rv6"),
+        # a closure written so that it reads the value through auto-deref (it is handed the value or a reference to it)
+        ("closure", "|cl_n| cl_n.abs() == 7", "|cl_n| cl_n.abs() == 8")]),
     "string": ("String", "\"hello\".to_string()", [
         ("string", "\"hello\"", "\"jello\""), ("eq", "== \"hello\"", "== \"x\""), ("ne", "!= \"x\"", "!= \"hello\""),
-        ("regex", "=~ r\"^he\"", "=~ r\"^je\""), ("like", "=~ pat", "=~ nopat")]),
+        ("regex", "=~ r\"^he\"", "=~ r\"^je\""), ("like", "=~ pat", "=~ nopat"),
+        ("closure_nc", "|cl_s| cl_s.len() == 5", "|cl_s| cl_s.len() == 4"), ("closure_nc_move", "move |cl_s| cl_s.starts_with(pat.trim_start_matches('^'))", None)]),
     "option": ("Option<i32>", "Some(7)", [
         ("some", "Some(7)", "Some(8)"), ("some_cmp", "Some(> 6)", "Some(> 7)"), ("none", None, "None"), ("some_wild", "Some(_)", None)]),
     "tuple": ("(i32, String)", "(7, \"hello\".to_string())", [
@@ -39,7 +42,7 @@ TARGETS = {
         ("set_wild", "#(_, _, _)", "#(_, _)"), ("set_any", "#(..)", None), ("set_wild_rest", "#(_, ..)", None), ("set_empty", None, "#()"),
         ("slice_wild", "[_, _, _]", "[_, _]"), ("slice_any", "[..]", None),
         # empty composites: they claim the value has NO elements, and fail on this one
-        ("slice_empty", None, "[]")]),
+        ("slice_empty", None, "[]"), ("closure_vec", "|cl_v| cl_v.len() == 3", "|cl_v| cl_v.contains(&9)")]),
     # slice-like values that are not collections: an iterator with an inherent as_slice() (consumed by next / collect / drain)
     "into_iter": ("std::vec::IntoIter<i32>", "vec![1, 2, 3].into_iter()", [
         ("iter_slice", "[1, 2, 3]", "[1, 2]"), ("iter_slice_rest", "[1, ..]", "[2, ..]"), ("iter_slice_any", "[..]", None), ("iter_wild", "_", None)]),
@@ -52,7 +55,7 @@ TARGETS = {
     "struct": ("Leaf", "Leaf { n: 7, s: \"hello\".to_string() }", [
         ("struct", "Leaf { n: 7, s: \"hello\" }", "Leaf { n: 8, s: \"hello\" }"), ("struct_rest", "Leaf { n: > 6, .. }", "Leaf { n: > 7, .. }"),
         ("wstruct", "_ { n: 7, .. }", "_ { n: 8, .. }"), ("struct_ops", "Leaf { s.len(): 5, .. }", "Leaf { s.len(): 4, .. }"),
-        ("struct_any", "Leaf { .. }", None), ("wstruct_wild", "_ { n: _, .. }", None)]),
+        ("struct_any", "Leaf { .. }", None), ("wstruct_wild", "_ { n: _, .. }", None), ("closure_struct", "|cl_l| cl_l.n == 7 && cl_l.s.len() == 5", "|cl_l| cl_l.n == 8")]),
     "enum": ("Kind", "Kind::Tup(7, \"hello\".to_string())", [
         ("variant", "Kind::Tup(7, \"hello\")", "Kind::Tup(8, _)"), ("unit", None, "Kind::Unit"), ("variant_rec", None, "Kind::Rec { a: 1, .. }"),
         ("variant_wild", "Kind::Tup(_, _)", None)]),
@@ -73,7 +76,8 @@ TARGETS = {
     "rc_string": ("std::rc::Rc<String>", "std::rc::Rc::new(\"hello\".to_string())", [("rc_regex", "=~ r\"^he\"", "=~ r\"^je\""), ("rc_like", "=~ pat", "=~ nopat")]),
     "box_string": ("Box<String>", "Box::new(\"hello\".to_string())", [("bx_regex", "=~ r\"^he\"", "=~ r\"^je\"")]),
     "u8": ("u8", "b'a'", [("byte_lit", "b'a'", "b'b'"), ("byte_int", "97", "98"), ("byte_range", "b'a'..=b'z'", "b'A'..=b'Z'")]),
-    "opt_string": ("Option<String>", "Some(\"hello\".to_string())", [("some_str", "Some(\"hello\")", "Some(\"jello\")"), ("some_regex", "Some(=~ r\"^he\")", "Some(=~ r\"^je\")")]),
+    "opt_string": ("Option<String>", "Some(\"hello\".to_string())", [("some_str", "Some(\"hello\")", "Some(\"jello\")"), ("some_regex", "Some(=~ r\"^he\")", "Some(=~ r\"^je\")"),
+                                                                        ("closure_opt", "|cl_o| cl_o.is_some()", "|cl_o| cl_o.is_none()"), ("some_closure", "Some(|cl_s| cl_s.len() == 5)", "Some(|cl_s| cl_s.is_empty())")]),
 }
 
 # positions: name -> (extra declarations, setup statements, root expression, pattern wrapper)
@@ -84,6 +88,11 @@ POSITIONS = {
     "root_ref": ("", "let x: {T} = {V}; let v = &x;", "v", "{P}"),
     # the asserted expression is a `&mut` reference (only C09 uses this position: the value behind it must be unchanged afterwards)
     "root_mut_ref": ("", "let mut x: {T} = {V}; let v = &mut x;", "v", "{P}"),
+    # ... and a `&mut` reference held in a struct field / reached through a field chain (C09 only)
+    "mutref_field": ("#[derive(Debug)] struct WM<'a> {{ f: &'a mut {T}, g: i32 }}", "let mut x: {T} = {V}; let v = WM {{ f: &mut x, g: 1 }};", "v", "WM {{ f: {P}, .. }}"),
+    "mutref_field_expr": ("#[derive(Debug)] struct WM<'a> {{ f: &'a mut {T}, g: i32 }}", "let mut x: {T} = {V}; let w = WM {{ f: &mut x, g: 1 }};", "w.f", "{P}"),
+    "mutref_nested": ("#[derive(Debug)] struct WM<'a> {{ f: &'a mut {T}, g: i32 }} #[derive(Debug)] struct OM<'a> {{ w: WM<'a> }}",
+                      "let mut x: {T} = {V}; let v = OM {{ w: WM {{ f: &mut x, g: 1 }} }};", "v", "OM {{ w.f: {P}, .. }}"),
     "root_field_expr": ("#[derive(Debug, Clone)] struct W {{ f: {T}, g: i32 }}", "let w = W {{ f: {V}, g: 1 }};", "w.f", "{P}"),
     "root_call": ("fn mk() -> {T} {{ {V} }}", "", "mk()", "{P}"),
     # computed asserted expressions whose value is a REFERENCE (the pattern must see it as it sees a reference variable):
@@ -132,7 +141,7 @@ POSITIONS = {
 }
 
 REFERENCE = "field"
-ONLY_ON_REQUEST = {"root_mut_ref"}
+ONLY_ON_REQUEST = {"root_mut_ref", "mutref_field", "mutref_field_expr", "mutref_nested"}
 LOWPREC = {"i32": "x + 0", "string": "x.clone() + \"\""}
 
 
